@@ -77,12 +77,11 @@ func genGT(t *rapid.T) GTCase {
 
 const grpcReadAhead = 128 // the provider's queue of decoded ammo
 
-// Finding: the gRPC gun reports an untagged ammo with an empty tag column instead of __EMPTY__ (guns/grpc/core.go
-// acquires the sample with the ammo's tag and has no fallback, unlike the HTTP base gun). While it is listed as known,
-// an untagged entry's sample may read "" - and nothing else: never a tag written on another line.
-const findingGRPCUntagged = "grpc-gun-untagged-sample-tag-empty"
+// Finding grpc-gun-untagged-sample-tag-empty (made by this test, repaired in /repo 9078429): the gRPC gun reported an
+// untagged ammo with an empty tag column instead of __EMPTY__ (guns/grpc/core.go acquired the sample with the ammo's tag
+// and had no fallback, unlike the HTTP base gun). The oracle is strict; TestGRPCUntaggedWitness is its fixed witness.
 
-func checkGT(r *vf.Run) func(c GTCase, o *vf.Obs) error {
+func checkGT(_ *vf.Run) func(c GTCase, o *vf.Obs) error {
 	return func(c GTCase, o *vf.Obs) error {
 		if len(c.Lines) == 0 || c.Repeat < 1 || c.Passes < 1 || c.Instances < 1 || c.shots() > 5000 {
 			return fmt.Errorf("harness: bad case")
@@ -171,19 +170,6 @@ func checkGT(r *vf.Run) func(c GTCase, o *vf.Obs) error {
 			}
 			return w
 		}
-		if r != nil && r.IsKnown(findingGRPCUntagged) {
-			// the listed finding, exactly: samples without any tag; they are read as the no-tag marker they should carry
-			n := 0
-			for i := range got {
-				if got[i].tag == "" {
-					got[i].tag = noTag
-					n++
-				}
-			}
-			if n > 0 {
-				r.Excluded(findingGRPCUntagged)
-			}
-		}
 		describe := func(i int) string {
 			ln := c.Lines[i%len(c.Lines)]
 			if ln.Tag == "" {
@@ -249,19 +235,16 @@ func checkGT(r *vf.Run) func(c GTCase, o *vf.Obs) error {
 	}
 }
 
-// TestGRPCUntaggedWitness: the fixed witness of findingGRPCUntagged - one untagged line, one instance, strict oracle.
+// TestGRPCUntaggedWitness: the fixed witness of finding grpc-gun-untagged-sample-tag-empty - an untagged line (both
+// spellings) next to a tagged one, one instance, the same strict oracle.
 func TestGRPCUntaggedWitness(t *testing.T) {
 	pand.Init()
 	r := vf.Start(t, "C10")
-	c := GTCase{Lines: []GTLine{{TagForm: "absent", Method: "Hello", Code: 0}, {Tag: "t", Method: "Hello", Code: 0}}, Repeat: 1, Passes: 1, Instances: 1}
+	c := GTCase{Lines: []GTLine{{TagForm: "absent", Method: "Hello", Code: 0}, {Tag: "t", Method: "Hello", Code: 0},
+		{TagForm: "empty", Method: "Auth", Code: 5}}, Repeat: 1, Passes: 1, Instances: 1}
 	o := &vf.Obs{}
-	err := vf.Guard(func() error { return checkGT(nil)(c, o) }) // nil run: nothing is known, the oracle is strict
+	err := vf.Guard(func() error { return checkGT(r)(c, o) })
 	o.Class("witness")
-	if err != nil && r.IsKnown(findingGRPCUntagged) && strings.Contains(err.Error(), `is {tag "", proto 200}`) {
-		r.KnownHit(findingGRPCUntagged)
-		o.Class("still_present")
-		err = nil
-	}
 	r.Record(c, o, err)
 	if err != nil {
 		t.Errorf("witness: %v", err)
